@@ -273,6 +273,8 @@ static Verdict run_C05(const Scn &s) {
   Bytes F2 = apply_faults(s, B, key);
   Diff d = diff_files(B.F, F2, B.e.hmode);
   if (!d.any) return skipv("fault-changed-nothing");
+  // a splice that yields the complete other file is a substitution by another authentic file, not an alteration
+  if (!B.G.empty() && F2 == B.G) return skipv("fault-produced-another-authentic-file");
   VD r = verify_and_decrypt(s, F2, key, B.T, HANG_VIOLATION);
   Verdict v;
   v.case_hash = case_hash_faults(s);
@@ -452,7 +454,7 @@ static Verdict run_C12(const Scn &s) {
 
 // ---------------------------------------------------------------- C13 crash points
 
-static long plan_C13(const std::string &tier) { return tier == "quick" ? 300 : 30000; }
+static long plan_C13(const std::string &tier) { return tier == "quick" ? 2400 : 30000; }
 
 static void gen_C13(const std::string &tier, uint64_t seed, long idx, Scn &s) {
   s.prop = "C13"; s.tier = tier; s.seed = seed; s.index = idx;
